@@ -14,9 +14,9 @@ Proof.
   unfold Q; simpl. finQ H1.
 Qed.
 
-Lemma step_Q s o r s' dg : Q s -> step c s o = (r, s', dg) -> r <> OBufferWrite -> Q s'.
+Lemma step_Q s o r s' dg : Q s -> step c s o = (r, s', dg) -> r <> OBufferWrite -> r <> OCrypto -> Q s'.
 Proof.
-  intros HQ E NE. destruct o; simpl in E.
+  intros HQ E NE NC. destruct o; simpl in E.
   - destruct (start_packet c s t) as [r0 s0] eqn:F. inversion E; subst; clear E.
     unfold start_packet in F.
     destruct (negb (valid_ptype t)); [inversion F; subst; auto|].
@@ -41,14 +41,14 @@ Proof.
     + apply (TL s1); auto.
   - destruct (start_frame c s ft cap) as [r0 s0] eqn:F. inversion E; subst; clear E.
     destruct HQ as (H0&H1&H2&H3). unfold start_frame in F.
+    destruct (b_cur s) as [p|] eqn:Hc in F; [|inversion F; subst; unfold Q; finQ H1].
+    cbv zeta in F.
     destruct (negb (b_hascrypto s)); [inversion F; subst; unfold Q; finQ H1|].
     destruct (_ || _) in F; [inversion F; subst; unfold Q; finQ H1|].
     destruct (size_uint_var _) as [sz|] eqn:SZ; [|inversion F; subst; unfold Q; finQ H1].
     assert (1 <= sz) by (unfold size_uint_var in SZ; revert SZ; destr; intros SZ; inversion SZ; lia).
     destruct (_ >? _) in F; [inversion F; subst; unfold Q; finQ H1|].
-    destruct (b_cur s) as [p|] eqn:Hc.
-    + destruct (H1 p eq_refl) as [Pa Pb]. inversion F; subst; clear F. unfold Q, set_cur, set_tell; simpl. finQ H1.
-    + destruct (_ || _) in F; inversion F; subst; unfold Q, set_tell; simpl; rewrite Hc; finQ H1.
+    destruct (H1 p Hc) as [Pa Pb]. inversion F; subst; clear F. unfold Q, set_cur, set_tell; simpl. finQ H1.
   - destruct (push c s n) as [r0 s0] eqn:F. inversion E; subst; clear E.
     destruct HQ as (H0&H1&H2&H3). unfold push in F.
     destruct (n <? 0) eqn:N0; [inversion F; subst; unfold Q; finQ H1|].
@@ -119,13 +119,13 @@ Theorem initial_padded_refuted :
     no_buffer_error c (init_st c 0) ops = true /\
     exists d, In d (g_log (fst (run c (init_st c 0) ops))) /\ d_init d = true /\ d_len d = 55.
 Proof.
-  exists (mkCfg true 1200 8 8 0 (Some (-5)) None), [OpStartPacket PT_INITIAL; OpStartFrame FT_ACK 1; OpPush 10; OpFlush].
+  exists (mkCfg true 1200 8 8 0 (Some (-5)) None (Some 1500)), [OpStartPacket PT_INITIAL; OpStartFrame FT_ACK 1; OpPush 10; OpFlush].
   split; [unfold wf_cfg; cbn; lia|]. split; [reflexivity|]. split; [reflexivity|].
   split; [vm_compute; reflexivity|]. split; [vm_compute; reflexivity|].
   eexists. split; [vm_compute; left; reflexivity|]. split; reflexivity.
 Qed.
 
 Example initial_padded_500 :
-  let c := mkCfg true 1200 8 8 0 (Some 500) None in
+  let c := mkCfg true 1200 8 8 0 (Some 500) None (Some 1500) in
   map d_len (g_log (fst (run c (init_st c 0) [OpStartPacket PT_INITIAL; OpStartFrame FT_ACK 1; OpPush 10; OpFlush]))) = [500].
 Proof. vm_compute. reflexivity. Qed.
